@@ -678,7 +678,7 @@ func (s *srvConn) gauges() string {
 	s.mu.Lock()
 	infl := s.inflight
 	s.mu.Unlock()
-	return fmt.Sprintf("strms=%d open=%d ring=%d held=%d rwin=%d body=%d infl=%d", http2.VerifStrms.Load(), http2.VerifOpen.Load(), http2.VerifRing.Load(), http2.VerifHeld.Load(), rwin, http2.VerifBody.Load(), infl)
+	return fmt.Sprintf("strms=%d open=%d ring=%d held=%d rwin=%d body=%d infl=%d rmem=%d", http2.VerifStrms.Load(), http2.VerifOpen.Load(), http2.VerifRing.Load(), http2.VerifHeld.Load(), rwin, http2.VerifBody.Load(), infl, http2.VerifRMem.Load())
 }
 
 func argInt(f []string, key string, def int) int {
